@@ -8,11 +8,13 @@ semantics for the analysed code (evaluation order and the number of evaluations 
   C2b if a != b: A else: B              -> if a == b: B else: A   (likewise for `is not`, `not in`)
   C3  t = e ; return t                  -> return e           when t is a local assigned exactly once and read exactly once
   C4  not not c  in a test position     -> c
+  C5  t = X ; S(t)                      -> S(X)               when t is a single-assignment, single-use local read first in S
 
 Positions of the surviving nodes are kept (reports still point into the file); a rewritten node takes the position of the
 node it replaces."""
 from __future__ import annotations
 import ast
+import os
 from typing import Dict, List
 
 _NEG = {ast.Eq: ast.NotEq, ast.NotEq: ast.Eq, ast.Is: ast.IsNot, ast.IsNot: ast.Is, ast.In: ast.NotIn, ast.NotIn: ast.In}
@@ -129,10 +131,178 @@ def _inline_return_temps(fn: ast.AST) -> None:
                 fix(h.body)
 
 
+def _pure(e: ast.AST) -> bool:
+    if isinstance(e, (ast.Name, ast.Constant)):
+        return True
+    if isinstance(e, ast.Attribute):
+        return _pure(e.value)
+    return False
+
+
+def _first_impure_is(e: ast.AST, name: str) -> bool:
+    """evaluating `e` left to right, is the first thing that is not a plain name / constant / attribute chain the load of
+    `name`, at an unconditionally evaluated position?  (then `name = X; stmt(e)` equals stmt(e[name := X]))"""
+    state = {"found": False, "blocked": False}
+
+    def visit(x: ast.AST, cond: bool) -> None:
+        if state["found"] or state["blocked"]:
+            return
+        if isinstance(x, ast.Name):
+            if x.id == name and isinstance(x.ctx, ast.Load):
+                if cond:
+                    state["blocked"] = True
+                else:
+                    state["found"] = True
+            return
+        if isinstance(x, ast.Constant):
+            return
+        if isinstance(x, ast.Attribute):
+            visit(x.value, cond)
+            if not _pure(x.value) and not state["found"]:
+                state["blocked"] = True
+            return
+        if isinstance(x, ast.Call):
+            visit(x.func, cond)
+            for a in x.args:
+                visit(a.value if isinstance(a, ast.Starred) else a, cond)
+            for k in x.keywords:
+                visit(k.value, cond)
+            if not state["found"]:
+                state["blocked"] = True  # the call itself happens before the name is reached
+            return
+        if isinstance(x, ast.BinOp):
+            visit(x.left, cond)
+            visit(x.right, cond)
+            if not state["found"]:
+                state["blocked"] = True
+            return
+        if isinstance(x, ast.Subscript):
+            visit(x.value, cond)
+            visit(x.slice, cond)
+            if not state["found"]:
+                state["blocked"] = True
+            return
+        if isinstance(x, ast.Compare):
+            visit(x.left, cond)
+            for c in x.comparators[:1]:
+                visit(c, cond)
+            if not state["found"]:
+                state["blocked"] = True
+            return
+        if isinstance(x, (ast.Tuple, ast.List)):
+            for el in x.elts:
+                visit(el, cond)
+            return
+        if isinstance(x, ast.UnaryOp):
+            visit(x.operand, cond)
+            return
+        if isinstance(x, ast.BoolOp):
+            visit(x.values[0], cond)
+            for v in x.values[1:]:
+                visit(v, True)
+            return
+        # anything else (IfExp, comprehensions, lambdas, f-strings, dict displays ...): do not look inside
+        if any(isinstance(y, ast.Name) and y.id == name for y in ast.walk(x)):
+            state["blocked"] = True
+        else:
+            state["blocked"] = state["blocked"] or not _pure(x)
+    visit(e, False)
+    return state["found"] and not state["blocked"]
+
+
+def _inline_single_use_temps(fn: ast.AST) -> None:
+    """C5: `t = X ; S(t)` -> `S(X)` when t is a local assigned exactly once, read exactly once, in the statement that directly
+    follows, at the position that is evaluated first (so that evaluation order is unchanged)"""
+    import copy
+    changed = True
+    rounds = 0
+    while changed and rounds < 8:
+        changed = False
+        rounds += 1
+        stores: Dict[str, int] = {}
+        loads: Dict[str, int] = {}
+        declared = set()
+        nodes: List[ast.AST] = []
+        stack = list(ast.iter_child_nodes(fn))
+        while stack:
+            x = stack.pop()
+            nodes.append(x)
+            if isinstance(x, (ast.FunctionDef, ast.AsyncFunctionDef, ast.Lambda, ast.ClassDef, ast.ListComp, ast.SetComp, ast.DictComp, ast.GeneratorExp)):
+                for y in ast.walk(x):
+                    if isinstance(y, ast.Name):
+                        loads[y.id] = loads.get(y.id, 0) + 2
+                        stores[y.id] = stores.get(y.id, 0) + (2 if isinstance(y.ctx, ast.Store) else 0)
+                continue
+            stack.extend(ast.iter_child_nodes(x))
+        for x in nodes:
+            if isinstance(x, ast.Name):
+                if isinstance(x.ctx, ast.Store):
+                    stores[x.id] = stores.get(x.id, 0) + 1
+                elif isinstance(x.ctx, ast.Load):
+                    loads[x.id] = loads.get(x.id, 0) + 1
+                else:
+                    stores[x.id] = stores.get(x.id, 0) + 2
+            elif isinstance(x, (ast.Global, ast.Nonlocal)):
+                declared |= set(x.names)
+            elif isinstance(x, ast.ExceptHandler) and x.name:
+                stores[x.name] = stores.get(x.name, 0) + 2
+            elif isinstance(x, ast.AugAssign) and isinstance(x.target, ast.Name):
+                stores[x.target.id] = stores.get(x.target.id, 0) + 2
+        params = set()
+        a = getattr(fn, "args", None)
+        if a is not None:
+            for p in a.args + a.kwonlyargs + a.posonlyargs:
+                params.add(p.arg)
+            if a.vararg:
+                params.add(a.vararg.arg)
+            if a.kwarg:
+                params.add(a.kwarg.arg)
+
+        def fix(lst: List[ast.stmt]) -> bool:
+            i = 0
+            while i + 1 < len(lst):
+                s0, s1 = lst[i], lst[i + 1]
+                if isinstance(s0, ast.Assign) and len(s0.targets) == 1 and isinstance(s0.targets[0], ast.Name) and isinstance(s1, (ast.Assign, ast.Return, ast.Expr)) \
+                        and getattr(s1, "value", None) is not None:
+                    t = s0.targets[0].id
+                    if stores.get(t, 0) == 1 and loads.get(t, 0) == 1 and t not in params and t not in declared and not isinstance(s0.value, (ast.Constant, ast.Name)) \
+                            and _first_impure_is(s1.value, t) and not (isinstance(s1, ast.Assign) and any(isinstance(y, ast.Name) and y.id == t for tg in s1.targets for y in ast.walk(tg))):
+                        val = s0.value
+
+                        class Sub(ast.NodeTransformer):
+                            def visit_Name(self, n: ast.Name):
+                                if n.id == t and isinstance(n.ctx, ast.Load):
+                                    return val
+                                return n
+                        s1.value = Sub().visit(s1.value)
+                        del lst[i]
+                        return True
+                i += 1
+            return False
+        for x in [fn] + nodes:
+            for fld in ("body", "orelse", "finalbody"):
+                lst = getattr(x, fld, None)
+                if isinstance(lst, list) and lst and isinstance(lst[0], ast.stmt):
+                    if fix(lst):
+                        changed = True
+                        break
+            if changed:
+                break
+            if isinstance(x, ast.Try):
+                for h in x.handlers:
+                    if fix(h.body):
+                        changed = True
+                        break
+            if changed:
+                break
+
+
 def canonicalise(tree: ast.Module) -> ast.Module:
     tree = _Canon().visit(tree)
     for n in ast.walk(tree):
         if isinstance(n, (ast.FunctionDef, ast.AsyncFunctionDef)):
             _inline_return_temps(n)
+            if os.environ.get("JV_CANON_C5", "1") == "1":
+                _inline_single_use_temps(n)
     ast.fix_missing_locations(tree)
     return tree
